@@ -14,6 +14,7 @@ def run(run, model):
     run.do(gates.c01_gate, model, "C16.pre-gate-first")
     run.do(inv.phases, model, "C16.inv-phases")
     run.do(inv.ctor, model, "C16.inv-ctor")
+    run.do(inv.marker_agreement, model, "C16.inv-wrapped-once")
     run.do(inv.meta_reapply, model, "C16.meta-order", None)
     run.do(common.append_rules, model, "C16.append", which=("pre", "post", "snap"))
     run.do(meta.provenance_rule, model, "C16.base-first", "__preconditions__", "precondition groups")
@@ -29,6 +30,8 @@ def run(run, model):
         if h is not None:
             run.do(loops.verdict_rule, model, "C16.first-failure", h[0], h[1], h[2], 1)
     run.do(meta.shared_member_rule, model, "C16.once-shared-member")
+    from . import c18
+    run.do(c18.find_rule, model, "C16.single-checker")
     # which constructor carries the "after construction" phase
     run.do(inv.install, model, "C16.install", "C16.ctor-choice")
     run.minimum("C16.phases", 2)
